@@ -32,3 +32,30 @@ Proof.
   intros Hr Hx. unfold validate_chain. destruct roots as [|r0 roots]; [congruence|]. destruct x5c as [|c0 x5c]; [congruence|].
   destruct (o_chain O now (c0 :: x5c) (r0 :: roots)); congruence.
 Qed.
+
+(* ---- round 11: the window over time.  `now` is the whole-second clock of the call. ---- *)
+
+(* whatever was accepted at clock `now` is refused at every clock 21 s or more later:
+   verifying the same response again after the window has passed cannot succeed *)
+Theorem timestamp_expires now ts : timestamp_ok now ts = true ->
+  forall now', now + 21 <= now' -> timestamp_ok now' ts = false.
+Proof.
+  intros H now' Hn. apply timestamp_window in H.
+  destruct (timestamp_ok now' ts) eqn:E; [|reflexivity]. apply timestamp_window in E. lia.
+Qed.
+
+(* once too old, too old for good (no later clock revives it) *)
+Theorem timestamp_stays_expired now ts : ts < now * 1000 - 10000 ->
+  forall now', now <= now' -> timestamp_ok now' ts = false.
+Proof.
+  intros H now' Hn. destruct (timestamp_ok now' ts) eqn:E; [|reflexivity]. apply timestamp_window in E. lia.
+Qed.
+
+(* the clocks that accept a given timestamp form one interval of at most 21 whole seconds *)
+Theorem timestamp_clocks_convex n1 n2 n3 ts : n1 <= n2 <= n3 ->
+  timestamp_ok n1 ts = true -> timestamp_ok n3 ts = true -> timestamp_ok n2 ts = true.
+Proof. intros Hn H1 H3. apply timestamp_window in H1, H3. apply timestamp_window. lia. Qed.
+
+Theorem timestamp_clocks_bounded n1 n2 ts :
+  timestamp_ok n1 ts = true -> timestamp_ok n2 ts = true -> Z.abs (n2 - n1) <= 20.
+Proof. intros H1 H2. apply timestamp_window in H1, H2. lia. Qed.
